@@ -237,6 +237,45 @@ def rule_Y8(ctx) -> None:
         ctx.proved("Y8", "pydantic-enum-schema:admits-int32", template.T_BODY, f"{found} schema calls in {n_cfg} configurations")
 
 
+def rule_Y9(ctx) -> None:
+    """pydantic mode: the template emits `@model_validator` for a message exactly when the header imports it - both are
+    keyed on real oneof members (the compiler class whose pydantic variant registers the import), never on the descriptor's
+    oneof declarations, which also list the synthetic oneofs of proto3 `optional` fields"""
+    models = ctx.repo.mod(M_MODELS)
+    body = (ctx.repo.root / T_BODY).read_text()
+    uses = [l for l in body.splitlines() if "model_validator" in l]
+    if not uses:
+        ctx.proved("Y9", "model_validator:use-implies-import", T_BODY, "the template does not use model_validator")
+        return
+    # the Jinja condition guarding the use
+    import re
+    i = body.index(uses[0])
+    conds = re.findall(r"{%-?\s*if\s+(.*?)\s*-?%}", body[:i])
+    cond = conds[-1] if conds else ""
+    props = re.findall(r"message\.(\w+)", cond)
+    reg = models.func("PydanticOneOfFieldCompiler.pydantic_imports")
+    registers = any(isinstance(n, ast.Constant) and n.value == "model_validator" for n in ast.walk(reg))
+    ctx.analysed("PydanticOneOfFieldCompiler.pydantic_imports")
+    if not registers or not props:
+        ctx.inconclusive("Y9", "model_validator:use-implies-import", f"guard `{cond}` / registration not recognised", T_BODY)
+        return
+    for pr in props:
+        fn = models.func(f"MessageCompiler.{pr}")
+        ctx.analysed(f"MessageCompiler.{pr}")
+        src = ast.unparse(fn)
+        by_class = any(isinstance(c, ast.Call) and ast.unparse(c.func) == "isinstance" and len(c.args) == 2 and "OneOfFieldCompiler" in ast.unparse(c.args[1]) for c in ast.walk(fn))
+        by_descriptor = "oneof_decl" in src or "oneof_index" in src
+        if by_class and not by_descriptor:
+            ctx.proved("Y9", "model_validator:use-implies-import", models.loc(fn), f"`{cond}`: {pr} tests for OneOfFieldCompiler members; PydanticOneOfFieldCompiler registers the import")
+        elif by_descriptor:
+            ctx.refuted("Y9", "model_validator:use-implies-import", f"{pr}:descriptor-oneofs", models.loc(fn),
+                        f"the template emits @model_validator when message.{pr}, which now looks at the descriptor's oneof declarations; those include the synthetic oneof of every proto3 "
+                        "`optional` field, for which no PydanticOneOfFieldCompiler exists and so nothing registers `from pydantic import model_validator`: NameError on import",
+                        "pydantic_dataclasses + a package whose only oneofs are proto3 optional fields")
+        else:
+            ctx.inconclusive("Y9", "model_validator:use-implies-import", f"{pr} not recognised: {src[:120]}", models.loc(fn))
+
+
 def run(ctx) -> None:
     ctx.rules_run += ["Y1", "Y2", "Y3", "Y4", "Y5", "Y6", "P3(pydantic)"]
     template.rule_Y1(ctx, full=ctx.tier == "thorough")
@@ -248,9 +287,13 @@ def run(ctx) -> None:
     rule_Y6(ctx)
     ctx.rules_run.append("Y8")
     rule_Y8(ctx)
-    from .c03 import rule_P11
+    ctx.rules_run.append("Y9")
+    rule_Y9(ctx)
+    from .c03 import rule_P11, rule_P9
     ctx.rules_run.append("P11")
     rule_P11(ctx)             # user comments cannot break the generated module
+    ctx.rules_run.append("P9")
+    rule_P9(ctx)              # typing imports are recorded on the compiler instance the header renders
     rule_P3(ctx, "pydantic")
     from . import presence
     ctx.rules_run.append("D1")
